@@ -199,6 +199,8 @@ def values_for(spec, rng, nrand, tier):
               Decimal('2.5E-%d' % (s + 1)), Decimal('3.5E-%d' % (s + 1)), Decimal('-2.5E-%d' % (s + 1)), Decimal('0.1') ** (s + 2),
               Decimal('123.456789012345678901234567'), Decimal('NaN'), Decimal('Infinity'), 7, 1.1, '2.50', Decimal('0.3'),
               Decimal('1234567890123456789012345678').scaleb(-s)]
+        if s >= 10:   # texts SQLite 3.40 converts to a REAL one ulp away from the nearest double
+            V += [Decimal('-0.2727985198'), Decimal('72.2158694122'), Decimal('40.7588108321'), Decimal('87.3883924983')]
         for nd in (14, 15, 16, 17, 18, 20, 25, 28):
             if nd <= p:
                 digits = ''.join(str((i * 7 + 1) % 10) for i in range(nd))
@@ -358,9 +360,18 @@ def beyond_precision(spec, d):
     return abs(q) >= Decimal(10) ** (p - s)
 
 
-def classify(spec, ref, obs, aff):
+def classify(spec, ref, obs, aff, projection=False):
     """-> list of finding ids whose deviant semantics reproduce `obs` exactly from `ref`, or None"""
     t = spec['type']
+    if projection and t == 'Decimal' and isinstance(ref, Decimal) and isinstance(obs, Decimal):
+        # rule: a projection converts the stored INTEGER/REAL with Decimal(str(x)) and does not round to the declared scale
+        try: q = ref.quantize(quant_exp(spec))
+        except InvalidOperation: return None
+        x = aff.store('dec', str(q))
+        try: raw = Decimal(str(x))
+        except InvalidOperation: return None
+        if isinstance(x, float) and obs == raw and raw != q: return ['C07-SQLITE-DECIMAL-PROJECTION-UNQUANTIZED']
+        return None
     if t == 'time' and isinstance(ref, time) and isinstance(obs, str):
         # rule: time is stored as isoformat text and the text is returned undecoded
         if obs == ref.isoformat(): return ['C07-SQLITE-TIME-STR']
@@ -475,9 +486,9 @@ class Runner(object):
         ctx.count('info.ref_equals_assigned' if same_as_assigned else 'info.ref_differs_from_assigned(normalised)')
 
         def witness(event, obs, extra=None):
-            wt = {'decl': spec, 'value': vr[:400], 'after_flush': repr(ref)[:400], 'event': event, 'observed': repr(obs)[:400],
-                  'stored_raw': self.raw_value(spec, oid)}
-            if len(vr) > 400: wt['value_len'] = len(vr)
+            wt = {'decl': spec, 'value': vr if len(vr) <= 20000 else vr[:400], 'after_flush': repr(ref)[:400], 'event': event,
+                  'observed': repr(obs)[:400], 'stored_raw': self.raw_value(spec, oid)}
+            if len(vr) > 20000: wt['value_truncated_from'] = len(vr)
             if extra: wt.update(extra)
             return wt
 
@@ -518,11 +529,11 @@ class Runner(object):
             if equal(spec, fresh, proj) or equal(spec, ref, proj):
                 ctx.count('outcome.projection_equal')
             else:
-                c2 = classify(spec, ref, proj, self.aff)
-                if c2 and classified:
-                    ctx.count('outcome.projection_deviation_same_rule')
-                elif c2:
-                    for fid in c2: ctx.finding(fid, witness('projection', proj, {'deviation_rules': c2}))
+                c2 = classify(spec, ref, proj, self.aff, projection=True) or (not classified and classify(spec, ref, proj, self.aff))
+                if c2:
+                    for fid in c2:
+                        ctx.count('outcome.deviation.%s' % fid)
+                        ctx.finding(fid, witness('projection', proj, {'deviation_rules': c2, 'fresh': repr(fresh)[:400]}))
                 else:
                     ctx.count('outcome.projection_differs')
                     ctx.violation(witness('projection', proj, {'fresh': repr(fresh)[:400]}), mechanism='C07-projection-differs-%s' % t)
@@ -671,7 +682,7 @@ def codec_roundtrips(ctx, rng, nrand):
 # ----------------------------------------------------------------------------------------------------
 def run(ctx):
     quick = ctx.tier == 'quick'
-    nrand = 200 if quick else 600
+    nrand = 200 if quick else 400
     all_specs = specs()
     accepted = []
     for s in all_specs:
@@ -712,6 +723,8 @@ def replay(ctx, witness):
     if 'codec' in witness:
         codec_roundtrips(ctx, ctx.subrng('codec', 0), 4)
         return
+    if witness.get('value_truncated_from'):
+        print('witness value was truncated (%d chars); cannot be replayed from the file' % witness['value_truncated_from']); return
     spec = witness['decl']
     spec['args'] = list(spec.get('args') or [])
     value = eval(witness['value'], dict(EVAL_NS))
